@@ -544,7 +544,18 @@ def dtab_scope(ctx, prog):
 
 dtab_scope.rule_id = "C02.DTAB-scope"
 
-RULES = [guard_bypass, wmc_link, pdom_height, ensure_raise, dtab_can_recompute, dtab_scope, data_edge_ends, guard_every_rhs_node]
+def pdom_sched_order(ctx, prog):
+    """Glitch freedom needs the propagation ORDER of maybe_change_value_manual: the other parents are queued first,
+    and only then is the first parent considered for the recompute-now shortcut (whose `height <= min_height` test
+    reads the heap those parents were just put into). Same rule as C01.PDOM-sched."""
+    from .engine import run_relabelled
+    from .c01 import pdom_sched as f
+    run_relabelled(ctx, prog, f, "C01.PDOM-sched", "C02.PDOM-sched")
+
+
+pdom_sched_order.rule_id = "C02.PDOM-sched"
+
+RULES = [guard_bypass, wmc_link, pdom_height, ensure_raise, dtab_can_recompute, dtab_scope, data_edge_ends, guard_every_rhs_node, pdom_sched_order]
 
 # control signature of the bookkeeping effects this property depends on (rules/ctrlsig.py)
 from .ctrlsig import make_rule as _ctrl_rule  # noqa: E402
